@@ -45,7 +45,7 @@ ASSUMPTIONS = [
     'builder_roundtrip_partial / _tuples_partial / _records_partial are the staged fragments (corollaries); '
     'snapshot_immutable, growth_irrelevant, equal_states_equal_snapshots hold for ALL sessions and builder classes; '
     'ill_nested_errors lists the refusal cases proved (state unchanged)',
-    'complex / datetime / timedelta and append / extend (IndexedBuilder) are not exercised (not modelled)',
+    'complex leaves are exercised only through the ak.from_iter stream (real Python layer under pyshim: values of one type each must come back from to_list unchanged), not by the command sessions / the model; datetime / timedelta and append / extend (IndexedBuilder) are not exercised',
     'only integer-valued reals (DESIGN 2.6); *_fast entry points (C-string pointer identity) not exercised',
     'simplify_uniontype / simplify_optiontype applied at snapshot time are not modelled: values are compared exactly, '
     'types modulo the normalisation norm_ty of buildrun.ml (numeric union alternatives collapse, unknown vanishes; '
